@@ -34,3 +34,72 @@ Example C05_example :
   run_file (fun i => match i with 0%nat => Matched (s "IsComment") 2 | 1%nat => NoMatch | _ => Matched (s "IsEmptyLine") 1 end) 0 4
   = Fatal unrec_msg.
 Proof. reflexivity. Qed.
+(* ---- the translated checks and the scope operations: which inputs make them raise, nothing else does, no fuel runs out.
+   (Gen/RuleChecks.v, Gen/Counters.v, Gen/ScopeOps.v are regenerated from the source on every run; Proofs/CrashFree.v) *)
+From NV Require Import Model.RuleChecks Gen.RuleChecks Model.CounterBase Gen.Counters Model.ScopeBase Gen.ScopeOps Model.ScopeTrace
+  Proofs.RuleChecksProofs Proofs.RuleChecksProofs2 Proofs.CrashFree.
+Local Open Scope Z_scope.
+
+Theorem C05_check_ternary_total : forall toks scope v, exists r, check_ternary toks scope v = Ok r.
+Proof. exact check_ternary_total. Qed.
+Print Assumptions C05_check_ternary_total.
+Theorem C05_check_line_len_total : forall toks scope v, exists r, check_line_len toks scope v = Ok r.
+Proof. exact check_line_len_total. Qed.
+Print Assumptions C05_check_line_len_total.
+Theorem C05_check_label_total : forall toks scope v, exists r, check_label toks scope v = Ok r.
+Proof. exact check_label_total. Qed.
+Print Assumptions C05_check_label_total.
+
+(* AttributeError exactly without a token; the registry only runs checks while context.tokens is not empty *)
+Theorem C05_check_many_instructions_crash_iff : forall toks scope v,
+  (toks = [] -> check_many_instructions toks scope v = Crash AttributeError) /\
+  (toks <> [] -> exists r, check_many_instructions toks scope v = Ok r).
+Proof. exact check_many_instructions_crash_iff. Qed.
+Print Assumptions C05_check_many_instructions_crash_iff.
+
+(* IndexError on an empty history; in the registry the matched primary has been appended before any check runs *)
+Theorem C05_check_empty_line_crash_no_history : forall toks scope v, v_history v = [] -> check_empty_line toks scope v = Crash IndexError.
+Proof. exact check_empty_line_crash_no_history. Qed.
+Print Assumptions C05_check_empty_line_crash_no_history.
+Theorem C05_check_empty_line_total_in_registry : forall toks scope v, toks <> [] -> v_history v <> [] ->
+  exists r, check_empty_line toks scope v = Ok r.
+Proof. exact check_empty_line_total_in_registry. Qed.
+Print Assumptions C05_check_empty_line_total_in_registry.
+Theorem C05_check_line_indent_crash_no_history : forall toks scope v, v_history v = [] -> check_line_indent toks scope v = Crash IndexError.
+Proof. exact check_line_indent_crash_no_history. Qed.
+Print Assumptions C05_check_line_indent_crash_no_history.
+Theorem C05_check_line_indent_total_in_registry : forall toks scope v, toks <> [] -> v_history v <> [] ->
+  exists r, check_line_indent toks scope v = Ok r.
+Proof. exact check_line_indent_total_in_registry. Qed.
+Print Assumptions C05_check_line_indent_total_in_registry.
+
+(* CheckSpacing: total (no AttributeError, no fuel exhaustion) unless the remaining tokens end in a SPACE *)
+Theorem C05_check_spacing_total_unless_trailing_space : forall toks scope, last_not_space toks -> 0 <= scope ->
+  forall v, v_history v <> [] -> exists r, check_spacing toks scope v = Ok r.
+Proof. exact check_spacing_total. Qed.
+Print Assumptions C05_check_spacing_total_unless_trailing_space.
+Theorem C05_check_spacing_crash_only_at_trailing_space : forall toks scope v e, 0 <= scope -> v_history v <> [] ->
+  check_spacing toks scope v = Crash e -> truthy (check1 toks (zlen toks - 1) ty_space) = true.
+Proof. exact check_spacing_crash_only_at_trailing_space. Qed.
+Print Assumptions C05_check_spacing_crash_only_at_trailing_space.
+(* ... and that crash is REACHABLE: `int<TAB>a;\<newline><space><EOF>` (recorded from the implementation) *)
+Theorem C05_refuted_check_spacing_eof_blank : check_spacing crash_tokens 5 crash_view = Crash AttributeError.
+Proof. exact check_spacing_crashes_at_eof_blank. Qed.
+Print Assumptions C05_refuted_check_spacing_eof_blank.
+
+(* Context.skip_nest and the parameter counter of CheckFuncDeclaration: never out of fuel, only CParsingError or AttributeError *)
+Theorem C05_skip_nest_total : forall toks pos, 0 <= pos -> nest_ok (skip_nest toks pos) pos.
+Proof. exact skip_nest_total. Qed.
+Print Assumptions C05_skip_nest_total.
+Theorem C05_check_func_decl_args_outcomes : forall toks scope fname_pos v, -1 <= fname_pos ->
+  (exists r, check_func_decl_args toks scope fname_pos v = Ok r) \/
+  (exists m, check_func_decl_args toks scope fname_pos v = Fatal m) \/
+  check_func_decl_args toks scope fname_pos v = Crash AttributeError.
+Proof. exact check_func_decl_args_outcomes. Qed.
+Print Assumptions C05_check_func_decl_args_outcomes.
+
+(* the scope bookkeeping of one turn of the registry loop never gets stuck on a chain that ends in a non-ControlStructure scope
+   (the GlobalScope): no missing parent is dereferenced, Context.update's recursion is bounded by the depth of the chain *)
+Theorem C05_scope_step_total : forall q x, wf_chain (chain q) -> opens_ok x -> exists q', step q x = Some q' /\ wf_chain (chain q').
+Proof. exact step_total. Qed.
+Print Assumptions C05_scope_step_total.
